@@ -95,6 +95,10 @@ type Case struct {
 	PIAKI         int  // 0 none, 1 key id (20), 2 short key id, 3 key id + issuer + serial, 4 long key id
 	PIAKICrit     bool
 	PIEKUShape    int // where the CT EKU sits among the pre-issuer's EKUs
+	IssuerSKI     int // subjectKeyIdentifier of the final issuer: 0 absent, 1 key-derived, 2.. one of skiPool (independent of the key)
+	PISKI         int // same for the pre-issuer
+	SiblingOff    int // selects the key of the sibling issuer (same name and SKI as the final issuer, another key)
+	SiblingFirst  bool
 	PoisonPos     int // clamped to [0, len(Exts)]
 	SCTPos        int // clamped to [0, len(extensions of E)]
 	ExtraInChain  bool // append a fourth certificate to the submitted chain
@@ -112,6 +116,7 @@ type Case struct {
 	TSDelta    uint64 // != 0: the "other timestamp"
 	OtherE     int    // which "other entry" the foreign SCT is signed over
 	PEM        bool   // read the SCTs back through the PEM form as well
+	Trailing   string // hex, 1-3 bytes appended after the TLS list inside the OCTET STRING (negative variant)
 }
 
 var attrOIDs = [][]int{
@@ -348,6 +353,10 @@ func genCase(t *rapid.T, signedAnchor bool) Case {
 	c.IssuerKeyKind = rapid.SampledFrom(issuerKinds).Draw(t, "isskind")
 	c.IssuerKeyIdx = rapid.IntRange(0, 5).Draw(t, "issidx")
 	c.SigAlg = rapid.IntRange(0, 2).Draw(t, "sigalg")
+	c.IssuerSKI = rapid.IntRange(0, 1+len(skiPool)).Draw(t, "issski")
+	c.PISKI = rapid.IntRange(0, 1+len(skiPool)).Draw(t, "piski")
+	c.SiblingOff = rapid.IntRange(0, 4).Draw(t, "siboff")
+	c.SiblingFirst = rapid.Bool().Draw(t, "sibfirst")
 	c.PreIssuer = rapid.IntRange(0, 9).Draw(t, "preissuer") < 5
 	if c.PreIssuer {
 		c.PIName = genName(t, "pi", false)
@@ -384,6 +393,11 @@ func genCase(t *rapid.T, signedAnchor bool) Case {
 	}
 	c.OtherE = rapid.IntRange(0, 3).Draw(t, "othere")
 	c.PEM = rapid.IntRange(0, 3).Draw(t, "pem") == 0
+	tr := make([]byte, rapid.IntRange(1, 3).Draw(t, "trailn"))
+	for i := range tr {
+		tr[i] = byte(rapid.IntRange(0, 255).Draw(t, "trailb"))
+	}
+	c.Trailing = hex.EncodeToString(tr)
 	return c
 }
 
@@ -571,6 +585,8 @@ type World struct {
 	IssuerKey, PIKey, LeafKey, LogKey *keys.Key
 	Alg                               string
 	I, PI, PINoEKU                    []byte // certificates
+	SibKey                            *keys.Key
+	SibI                              []byte // sibling issuer certificate
 	IName, PISubject                  pki.Name
 	PIAKIValue                        []byte // extnValue contents of the pre-issuer's AKI (nil: none)
 
@@ -591,6 +607,21 @@ type World struct {
 	ExtValue  []byte // extnValue contents of the SCT list extension (OCTET STRING TLV around List)
 
 	sigTail []byte // signatureAlgorithm + signatureValue of F, reused to wrap unsigned variants
+}
+
+// skiPool: subject key identifiers that are NOT derived from the key, so that within one process (and
+// within one case, through the sibling issuer) different issuer keys carry the same identifier.
+var skiPool = [][]byte{{0x01}, bytes.Repeat([]byte{0xaa}, 20), []byte("verif-shared-ski")}
+
+// skiExt returns the SKI extension selected by sel for the key (nil: none).
+func skiExt(sel int, k *keys.Key) []pki.Ext {
+	switch {
+	case sel <= 0:
+		return nil
+	case sel == 1:
+		return []pki.Ext{pki.SKI(pki.KeyID(k))}
+	}
+	return []pki.Ext{pki.SKI(skiPool[(sel-2)%len(skiPool)])}
 }
 
 func pickAlg(k *keys.Key, i int) string {
@@ -668,8 +699,14 @@ func Build(c *Case, realSig bool) *World {
 	w.IName = nameOf(c.IssuerName)
 	w.KeyHash = sha256.Sum256(w.IssuerKey.SPKI)
 
-	w.I = caCert(w.IName, w.IName, w.IssuerKey, w.IssuerKey, w.Alg, 1000,
-		[]pki.Ext{pki.BasicConstraints(true, -1, true), pki.KeyUsage(pki.KUKeyCertSign, pki.KUCRLSign), pki.SKI(pki.KeyID(w.IssuerKey))})
+	caExts := func(k *keys.Key) []pki.Ext {
+		return append([]pki.Ext{pki.BasicConstraints(true, -1, true), pki.KeyUsage(pki.KUKeyCertSign, pki.KUCRLSign)}, skiExt(c.IssuerSKI, k)...)
+	}
+	w.I = caCert(w.IName, w.IName, w.IssuerKey, w.IssuerKey, w.Alg, 1000, caExts(w.IssuerKey))
+	// the sibling: another CA with the same name and the same SKI selection but a different key of the same kind
+	ipool := len(keys.Kind(c.IssuerKeyKind))
+	w.SibKey = keys.Pick(c.IssuerKeyKind, c.IssuerKeyIdx+1+c.SiblingOff%(ipool-1))
+	w.SibI = caCert(w.IName, w.IName, w.SibKey, w.SibKey, w.Alg, 1001, caExts(w.SibKey))
 
 	signerOfP := w.IssuerKey
 	issuerOfP := w.IName
@@ -691,7 +728,7 @@ func Build(c *Case, realSig bool) *World {
 			eku = pki.EKU(pki.OIDEKUServerAuth, pki.OIDEKUCT, []int{1, 3, 6, 1, 4, 1, 99999, 7, 2})
 			eku.Critical = true
 		}
-		tail := []pki.Ext{pki.SKI(pki.KeyID(w.PIKey))}
+		tail := skiExt(c.PISKI, w.PIKey)
 		if c.PIAKI != 0 {
 			w.PIAKIValue = akiValue(c.PIAKI, "pi-aki/"+c.Serial, 5)
 			a := pki.Ext{OID: pki.OIDExtAKI, Value: w.PIAKIValue, Critical: c.PIAKICrit}
@@ -940,6 +977,7 @@ func (w *World) classify(c *Case, v *harness.Verdict) {
 		v.Class("route=direct")
 	}
 	v.Class("poison="+posClass(w.PoisonP, len(w.Content)), "sctlist="+posClass(w.SCTq, len(w.ExtsE)))
+	v.Class("issuer-ski=" + []string{"absent", "key-derived", "pooled"}[min(c.IssuerSKI, 2)])
 	v.Class(fmt.Sprintf("exts=%d", len(w.Content)))
 	v.Class("validity="+timeClass(c.NotBefore)+"/"+timeClass(c.NotAfter), "key="+c.KeyKind, "alg="+w.Alg)
 	if c.IssuerUID != nil || c.SubjectUID != nil {
